@@ -26,6 +26,10 @@ package redisemu
 //@ requires tablesize: len(data.buckets) >= 16 && len(data.buckets) <= (1<<31) && len(data.buckets)&(len(data.buckets)-1) == 0
 //@ requires len(data.buckets) == 1<<uint(kk)
 //@ requires !scanStarted
+// a step has a budget of at least one bucket (COUNT >= 1 is enforced by the command handlers), so every call makes progress
+//@ requires [C17,C13] count.positive: count >= 1
+//@ ensures [C17] progress: scanStarted
+//@ loop "for count > 0" invariant [C17] started.or.untouched: scanStarted || count == old(count)
 //@ modifies heap ghost.lookupAbsent ghost.scanStarted ghost.scanFirst ghost.scanNext ghost.scanCursor
 // C17: the filter must not touch the table being walked (a removal or
 // insertion may rehash it mid-iteration)
@@ -48,3 +52,31 @@ package redisemu
 //@ loop "for count > 0" invariant [C17] startfix: scanStarted ==> scanFirst == reverse32((old(cursor) & (uint32(1)<<uint(kk) - 1)) << uint(32-kk))
 //@ loop "for nextCursor < highBit" invariant [C17] skip: index < nextCursor && nextCursor <= highBit && all(j, int(index)+1, int(nextCursor), data.buckets[j] == nil)
 //@ loop "for nextCursor < highBit" invariant held && scanStarted && (old(lookupAbsent) ==> lookupAbsent) && (old(dsc.ds.data.dirty) ==> dsc.ds.data.dirty)
+
+// C17: the command handlers hand the scan step a budget of at least one (COUNT
+// below 1 is a syntax error, the default is 10), so a full iteration cannot
+// stall on a zero-budget step
+//@ func fnScan
+//@ prop C17
+//@ safetyprop none
+//@ requires ctx != nil && ctx.dsc != nil && dscOK(ctx.dsc)
+//@ requires [C08,C16] unlocked: lockMode(ctx.dsc)
+//@ requires !mutated && !bumped && !removedKey && !scanStarted
+//@ requires free tablesize: dictSized(ctx.dsc.ds.data)
+//@ modifies *
+
+//@ func fnHScan
+//@ prop C17
+//@ safetyprop none
+//@ requires ctx != nil && ctx.dsc != nil && dscOK(ctx.dsc)
+//@ requires [C08,C16] unlocked: lockMode(ctx.dsc)
+//@ requires !mutated && !bumped && !removedKey && !scanStarted
+//@ modifies *
+
+//@ func fnSScan
+//@ prop C17
+//@ safetyprop none
+//@ requires ctx != nil && ctx.dsc != nil && dscOK(ctx.dsc)
+//@ requires [C08,C16] unlocked: lockMode(ctx.dsc)
+//@ requires !mutated && !bumped && !removedKey && !scanStarted
+//@ modifies *
